@@ -40,6 +40,9 @@ type c18Case struct {
 	Identities bool     `json:"identities"` // identities file (else recipients file)
 	Lines      []kfLine `json:"lines"`
 	Via        string   `json:"via"` // lib | cli | keygen
+	// Before (CLI only): another source of keys named before this file on the
+	// command line: "r" (-r KEY), "R" (-R a good file); for identities "i" (-i a good file)
+	Before string `json:"before,omitempty"`
 }
 
 func c18KeyString(identities bool, idx int) string {
@@ -326,6 +329,19 @@ func c18CheckCLI(c c18Case, want []kfLine, firstBad int, mayFail bool) error {
 	if c.Identities {
 		args = []string{"-e", "-i", "k.txt", "-o", "out.age", "in.txt"}
 	}
+	extra := 0
+	otherPub := refage.Bech32Encode("age", refage.X25519Public(p.X25519[7]))
+	switch {
+	case c.Before == "" || (c.Identities && c.Before != "i") || (!c.Identities && c.Before == "i"):
+	case c.Before == "r":
+		args, extra = append([]string{"-r", otherPub}, args...), 1
+	case c.Before == "R":
+		os.WriteFile(filepath.Join(dir, "good.txt"), []byte(otherPub+"\n"), 0o644)
+		args, extra = append([]string{"-R", "good.txt"}, args...), 1
+	case c.Before == "i":
+		os.WriteFile(filepath.Join(dir, "good.txt"), []byte(refage.Bech32Encode("AGE-SECRET-KEY-", p.X25519[7])+"\n"), 0o600)
+		args, extra = append([]string{"-e", "-i", "good.txt"}, args[1:]...), 1
+	}
 	code, _, stderr := runCLI(dir, []string{"PATH=/nonexistent", "HOME=" + dir}, nil, filepath.Join(bin, "age"), args...)
 	if code == -2 {
 		return nil
@@ -344,9 +360,13 @@ func c18CheckCLI(c c18Case, want []kfLine, firstBad int, mayFail bool) error {
 			return pbt.Failf("C18/cli-no-output", "age output does not parse: %v", perr)
 		}
 		// identify each stanza's key among the expected ones, in order
-		if len(h.Stanzas) != len(want) {
-			return pbt.Failf("C18/key-count", "age encrypted to %d recipients for a file with %d key lines (stderr %q)\n%q", len(h.Stanzas), len(want), trunc([]byte(stderr)), trunc(c.bytes()))
+		if len(h.Stanzas) != len(want)+extra {
+			return pbt.Failf("C18/key-count", "age encrypted to %d recipients for a file with %d key lines and %d key(s) named before it (stderr %q)\n%q", len(h.Stanzas), len(want), extra, trunc([]byte(stderr)), trunc(c.bytes()))
 		}
+		if firstBad > 0 || len(want) == 0 {
+			return pbt.Failf("C18/bad-file-accepted", "age %v accepted a key file that has an invalid line (%d) or no key at all (%d keys), because other keys were named before it", args, firstBad, len(want))
+		}
+		h.Stanzas = h.Stanzas[extra:]
 		for i, w := range want {
 			var k refage.Key
 			switch {
@@ -413,7 +433,7 @@ func substitute(t *rapid.T, s string, n int) string {
 func c18GenLine(t *rapid.T, identities, cli bool) kfLine {
 	idx := rapid.IntRange(0, 30).Draw(t, "keyIdx")
 	key := c18KeyString(identities, idx)
-	kinds := []string{"key", "key", "key", "key", "comment", "empty", "bad-huge-comment", "bad-huge-key", "bad-subst", "bad-trunc", "bad-lead-space", "bad-trail-space", "bad-tab", "bad-case", "bad-two-keys", "bad-ws-only", "bad-indented-comment", "bad-crcr", "bad-other-kind", "comment-with-key", "bad-garbage", "bad-payload-length", "bad-q-inserted", "bad-github"}
+	kinds := []string{"key", "key", "key", "key", "comment", "empty", "bad-huge-comment", "bad-huge-key", "bad-subst", "bad-trunc", "bad-lead-space", "bad-trail-space", "bad-tab", "bad-case", "bad-two-keys", "bad-ws-only", "bad-indented-comment", "bad-crcr", "bad-other-kind", "comment-with-key", "bad-garbage", "bad-payload-length", "bad-q-inserted", "bad-github", "bad-padding"}
 	if cli && !identities {
 		kinds = append(kinds, "ssh-ok-ed25519", "ssh-ok-rsa", "ssh-unsupported-ecdsa", "ssh-unsupported-small-rsa", "bad-ssh-truncated", "bad-ssh-extra", "bad-ssh-typeonly", "bad-long-line", "ssh-ok-ed25519", "bad-ssh-truncated")
 	}
@@ -492,6 +512,16 @@ func c18GenLine(t *rapid.T, identities, cli bool) kfLine {
 			hrp = "AGE-SECRET-KEY-"
 		}
 		l.Text, l.Bad = refage.Bech32Encode(hrp, append(append([]byte{}, c18Scalar(idx)...), hx.PRG(uint64(idx), 32)...)[:n]), true
+	case "bad-padding":
+		// the four padding bits of the last data character are not all zero; checksum recomputed
+		hrp := "age"
+		payload := refage.X25519Public(c18Scalar(idx))
+		if identities {
+			hrp, payload = "age-secret-key-", c18Scalar(idx)
+		}
+		g := refage.To5(payload)
+		g[len(g)-1] |= byte(rapid.IntRange(1, 15).Draw(t, "padBits"))
+		l.Text, l.Bad = refage.Bech32EncodeGroups(hrp, g, identities), true
 	case "bad-q-inserted":
 		_, l.Text = c18QP(identities)
 		l.Bad = true
@@ -536,6 +566,9 @@ func c18GenLine(t *rapid.T, identities, cli bool) kfLine {
 
 func c18Gen(t *rapid.T, via string) c18Case {
 	c := c18Case{Identities: rapid.Bool().Draw(t, "identities"), Via: via}
+	if via == "cli" {
+		c.Before = rapid.SampledFrom([]string{"", "", "r", "R", "i"}).Draw(t, "before")
+	}
 	if via == "keygen" {
 		c.Identities = true
 	}
@@ -615,6 +648,15 @@ func TestC18(t *testing.T) {
 			hrp := map[bool]string{true: "AGE-SECRET-KEY-", false: "age"}[ids]
 			long := append(append([]byte{}, c18Scalar(0)...), 7)
 			bads = append(bads, qins, refage.Bech32Encode(hrp, long), refage.Bech32Encode(hrp, long[:31]), "github:some-user-name")
+			for _, bits := range []byte{1, 2, 4, 8, 15} {
+				payload := c18Scalar(0)
+				if !ids {
+					payload = refage.X25519Public(payload)
+				}
+				g := refage.To5(payload)
+				g[len(g)-1] |= bits
+				bads = append(bads, refage.Bech32EncodeGroups(strings.ToLower(hrp), g, ids))
+			}
 			for _, b := range bads {
 				if b == k0 {
 					continue
@@ -640,7 +682,7 @@ func TestC18(t *testing.T) {
 				}
 			}
 		}
-		s.St.Exhaust("16 kinds of invalid line (incl. check-summed strings of 31- and 33-byte payloads, a q inserted before the final p, a github: line) x every position of a 4-line file x LF/CRLF x identities/recipients", int64(n))
+		s.St.Exhaust("21 kinds of invalid line (incl. non-zero padding bits 0001, 0010, 0100, 1000, 1111, check-summed strings of 31- and 33-byte payloads, a q inserted before the final p, a github: line) x every position of a 4-line file x LF/CRLF x identities/recipients", int64(n))
 	}, check)
 	// exhaustive: every position of the public prefix of an identity line
 	// substituted or deleted, through the library and the CLI
